@@ -130,7 +130,7 @@ def _workroot():
 def _main(a, prop, prop_id, seed, known, workdir, t0):
     tier = a.tier
     budget = dict(prop.budget(tier))
-    nshards = min(NPROC, budget.get("shards", NPROC))
+    nshards = max(1, int(budget.get("shards", NPROC)))  # may exceed NPROC: shards are queued, which balances uneven case costs
     safety = budget.get("safety_s", 1800 if tier == "quick" else 6 * 3600)
 
     # ---------------------------------------------------------------- replay-only mode
